@@ -143,6 +143,10 @@ def member(term, i, W, hm=None):
         return hm(i, term[1])
     if k in ("type", "list", "dict"):
         return z3.BoolVal(False)  # an instance of a harness class is never a type / list / dict
+    if k == "Dep":
+        # Dependent[bound, p]: an instance of the bound on which p holds; p0/p1 are constantly true, p2 constantly false, the flag
+        # predicates are false on instances that carry no flag
+        return z3.And(member(term[1], i, W, hm), z3.BoolVal(term[2] in (0, 1)))
     raise ValueError(term)
 
 
